@@ -154,7 +154,41 @@ func buildPool(path string) ([]poolObj, error) {
 		}
 		return nil
 	})
+	if err == nil {
+		pool = append(pool, bigPool()...)
+	}
 	return pool, err
+}
+
+// bigPool: objects beyond the size thresholds that gate caches, parallel code paths and index widths
+// (4096 / 5000 children, 70 000 points). Their trees are placeholders (events show the kind only).
+func bigPool() []poolObj {
+	var feats, geoms, mpts []geojson.Object
+	for i := 0; i < 5000; i++ {
+		p := geojson.NewPoint(geometry.Point{X: float64(i%100) / 4, Y: float64(i/100) / 4})
+		feats = append(feats, geojson.NewFeature(p, fmt.Sprintf(`{"id":%d,"properties":{"k":%d}}`, i, i%7)))
+	}
+	for i := 0; i < 4100; i++ {
+		if i%2 == 0 {
+			geoms = append(geoms, geojson.NewPoint(geometry.Point{X: float64(i % 90), Y: float64(i % 45)}))
+		} else {
+			geoms = append(geoms, geojson.NewLineString(geometry.NewLine([]geometry.Point{{X: float64(i % 90), Y: 1}, {X: float64(i%90) + 1, Y: float64(i % 45)}}, nil)))
+		}
+	}
+	var pts []geometry.Point
+	for i := 0; i < 70000; i++ {
+		pts = append(pts, geometry.Point{X: float64(i%350) / 2, Y: float64(i/350)/4 + float64(i%2)/8})
+	}
+	for i := 0; i < 4200; i++ {
+		mpts = append(mpts, geojson.NewPoint(pts[i*16]))
+	}
+	return []poolObj{
+		{Tree{Kind: "FeatureCollection"}, "big/5000-features", geojson.NewFeatureCollection(feats)},
+		{Tree{Kind: "GeometryCollection"}, "big/4100-geometries", geojson.NewGeometryCollection(geoms)},
+		{Tree{Kind: "GeometryCollection"}, "big/4200-points", geojson.NewGeometryCollection(mpts)},
+		{Tree{Kind: "LineString"}, "big/70000-point-line", geojson.NewLineString(geometry.NewLine(pts, nil))},
+		{Tree{Kind: "Polygon"}, "big/70000-point-ring-rtree", geojson.NewPolygon(geometry.NewPoly(append(pts[:69999:69999], pts[0]), nil, &indexConfigs[1]))},
+	}
 }
 
 type call16 struct {
